@@ -32,6 +32,7 @@ type Scenario struct {
 	Horizon  int
 	NoCache  bool
 	Weight   int // relative cost hint for shard balancing (default 1)
+	Fine     bool // explore in fine-grained mode (vsched.Fine): preemption also right AFTER every operation
 }
 
 type Bounds struct{ P, T int }
@@ -49,6 +50,10 @@ type replayT struct {
 func Main(cfg *vlib.Config, r *vlib.Report, scenarios []Scenario, quick, thorough Bounds, rule string) {
 	byName := map[string]*Scenario{}
 	for i := range scenarios {
+		if scenarios[i].Fine || os.Getenv("VERIF_FINE") == "1" {
+			inner := scenarios[i].Body
+			scenarios[i].Body = func() { vsched.Fine(true); inner() }
+		}
 		if byName[scenarios[i].Name] != nil {
 			vlib.Fatal("duplicate scenario %q", scenarios[i].Name)
 		}
